@@ -104,6 +104,29 @@ def regen():
     return translate.regenerate_all()
 
 
+def gen_deps(prop):
+    """The Gen/*.v files Props/<prop>.v depends on (transitively, through `From JugV Require Import` lines)."""
+    seen, todo, gens = set(), ['Props/%s.v' % prop], set()
+    while todo:
+        rel = todo.pop()
+        if rel in seen:
+            continue
+        seen.add(rel)
+        path = os.path.join(COQ, rel)
+        if not os.path.exists(path):
+            continue
+        code = re.sub(r'\(\*.*?\*\)', ' ', open(path).read(), flags=re.S)
+        for m in re.finditer(r'(?:From\s+JugV\s+)?Require\s+(?:Import|Export)?\s*([^.]*(?:\.[A-Za-z_][^.]*)*?)\.(?=\s)', code, flags=re.S):
+            for name in m.group(1).split():
+                name = name.replace('JugV.', '')
+                parts = name.split('.')
+                if len(parts) == 2 and parts[0] in ('Model', 'Gen', 'Proofs', 'Props'):
+                    if parts[0] == 'Gen':
+                        gens.add(parts[1] + '.v')
+                    todo.append('%s/%s.v' % (parts[0], parts[1]))
+    return gens
+
+
 def make(targets, jobs=NPROC, timeout=COQ_TIMEOUT):
     with BuildLock():
         ensure_makefile()
@@ -274,7 +297,15 @@ class Check:
         theorem.  Returns True iff everything checks."""
         ok_all = True
         ok, msg = regen()
-        self.obligations.append({'name': 'translator(Gen/*.v from /repo)', 'kind': 'translator', 'ok': ok, 'msg': msg[-600:] if not ok else ''})
+        if not ok:
+            # a failed translation breaks the properties whose theorems depend on that generated file - not the others
+            from . import translate
+            mine = gen_deps(self.prop)
+            bad = [m for g, m in translate.LAST_FAILED.items() if g in mine]
+            other = [g for g in translate.LAST_FAILED if g not in mine]
+            ok = not bad
+            msg = '; '.join(bad) if bad else 'not needed by Props/%s.v and failing to translate: %s' % (self.prop, ', '.join(other))
+        self.obligations.append({'name': 'translator(Gen/*.v from /repo)', 'kind': 'translator', 'ok': ok, 'msg': msg[-600:]})
         if not ok:
             self.broken.append('translator: ' + msg[-300:])
             ok_all = False
